@@ -96,7 +96,7 @@ func sameTree(a, b map[string]string) []string {
 const e2eGood = "package good\n\n// goverter:converter\ntype C interface {\n\tConvert(source In) Out\n}\ntype In struct{ A int }\ntype Out struct{ A int }\n"
 const e2eBad = "package bad\n\n// goverter:converter\ntype C interface {\n\tConvert(source In) Out\n}\ntype In struct{ A int }\ntype Out struct{ A, Missing int }\n"
 
-func e2eC17(repo, dir string) ([]string, error) {
+func e2eC17(repo, dir string, vals map[string]string) ([]string, error) {
 	e, err := newE2E(repo, dir)
 	if err != nil {
 		return nil, err
@@ -143,10 +143,37 @@ func e2eC17(repo, dir string) ([]string, error) {
 			bad = append(bad, "successful run did not write "+f)
 		}
 	}
+	// output below two missing directories
+	e.write("nested/in.go", strings.Replace(strings.Replace(e2eGood, "package good", "package nested", 1), "// goverter:converter\n", "// goverter:converter\n// goverter:output:file ./out/v1/conv/generated.go\n// goverter:output:package e2e/nested/out/v1/conv\n", 1))
+	code, _, se = e.run("gen", "./nested")
+	if code != 0 {
+		bad = append(bad, fmt.Sprintf("valid run with a nested output directory exits %d: %s", code, firstLine(se)))
+	}
+	if _, err := os.Stat(filepath.Join(e.dir, "nested/out/v1/conv/generated.go")); err != nil {
+		bad = append(bad, "nested output file not written")
+	}
+	// a converter that passes every stage but cannot be rendered (broken output:raw) next to good ones:
+	// nothing may be written, whatever order the files are rendered in
+	for i := 0; i < 5; i++ {
+		e.write(fmt.Sprintf("r%d/in.go", i), strings.Replace(e2eGood, "package good", fmt.Sprintf("package r%d", i), 1))
+	}
+	e.write("rbad/in.go", strings.Replace(strings.Replace(e2eGood, "package good", "package rbad", 1), "// goverter:converter\n", "// goverter:converter\n// goverter:output:raw func broken( {\n", 1))
+	for try := 0; try < 6; try++ {
+		b0 := e.tree()
+		code, _, _ = e.run("gen", "./r0", "./r1", "./rbad", "./r2", "./r3", "./r4")
+		if code != 1 {
+			bad = append(bad, fmt.Sprintf("run with an unrenderable converter exits %d", code))
+			break
+		}
+		if d := sameTree(b0, e.tree()); len(d) > 0 {
+			bad = append(bad, "run failing at render time wrote files: "+strings.Join(d, ", "))
+			break
+		}
+	}
 	return bad, nil
 }
 
-func e2eC16(repo, dir string) ([]string, error) {
+func e2eC16(repo, dir string, vals map[string]string) ([]string, error) {
 	e, err := newE2E(repo, dir)
 	if err != nil {
 		return nil, err
@@ -186,10 +213,47 @@ func e2eC16(repo, dir string) ([]string, error) {
 	if code != 0 || strings.Contains(string(b), "//go:build") {
 		bad = append(bad, "empty -output-constraint still emits a constraint line")
 	}
+	// constraints with various first characters (and the one from the counterexample) are emitted verbatim
+	constraints := []string{"linux || !goverter", "go1.18 && !goverter", "(!goverter)", "unix", "d", "!goverter"}
+	if c := vals["constraint"]; c != "" && isPrintable(c) {
+		constraints = append(constraints, c)
+	}
+	for _, c := range constraints {
+		code, _, _ = e.run("gen", "-output-constraint", c, "./good")
+		b, _ = os.ReadFile(filepath.Join(e.dir, "good/generated/generated.go"))
+		ls := strings.Split(string(b), "\n")
+		if code != 0 || len(ls) < 2 || ls[1] != "//go:build "+c {
+			got := ""
+			if len(ls) > 1 {
+				got = ls[1]
+			}
+			bad = append(bad, fmt.Sprintf("-output-constraint %q emitted as %q", c, got))
+		}
+	}
+	// several build tags: both package loads must see all of them; output in the same package as the
+	// interface, previous output broken / outdated
+	same := "package same\n\n// goverter:converter\n// goverter:output:file ./generated.go\n// goverter:output:package e2e/same\n// goverter:extend Custom\ntype C interface {\n\tConvert(source In) Out\n}\ntype In struct{ A int }\ntype Out struct{ A string }\n\nfunc Custom(i int) string { return \"\" }\n"
+	e.write("same/in.go", same)
+	for _, tags := range []string{"goverter,sqlite", "sqlite,goverter", "goverter"} {
+		e.write("same/generated.go", "// Code generated by github.com/jmattheis/goverter, DO NOT EDIT.\n//go:build !goverter\n\npackage same\n\nfunc broken( {\n")
+		code, _, se = e.run("gen", "-build-tags", tags, "./same")
+		if code != 0 {
+			bad = append(bad, fmt.Sprintf("-build-tags %s: broken previous output in the same package blocks regeneration: %s", tags, firstLine(se)))
+		}
+	}
 	return bad, nil
 }
 
-func e2eC15(repo, dir string) ([]string, error) {
+func isPrintable(s string) bool {
+	for _, c := range s {
+		if c < 0x21 || c > 0x7e {
+			return false
+		}
+	}
+	return true
+}
+
+func e2eC15(repo, dir string, vals map[string]string) ([]string, error) {
 	e, err := newE2E(repo, dir)
 	if err != nil {
 		return nil, err
@@ -229,10 +293,78 @@ func e2eC15(repo, dir string) ([]string, error) {
 	if _, err := os.Stat(filepath.Join(e.dir, "out2")); err == nil {
 		bad = append(bad, "conflicting run wrote files")
 	}
+	// same file, same package path, different package names
+	e.write("c/in.go", "package c2\n\n// goverter:converter\n// goverter:output:file ../out3/gen.go\n// goverter:output:package e2e/out3:foo\ntype C interface {\n\tConvert(source In) Out\n}\n\n// goverter:converter\n// goverter:output:file ../out3/gen.go\n// goverter:output:package e2e/out3:bar\ntype D interface {\n\tConvert(source In) Out\n}\ntype In struct{ A int }\ntype Out struct{ A int }\n")
+	code, _, _ = e.run("gen", "./c")
+	if code != 1 {
+		bad = append(bad, "same file with the same package path but different package names accepted")
+	}
+	// @cwd/ with a relative -cwd lands under the working directory
+	sub, err2 := newE2E(repo, filepath.Join(dir, "rel"))
+	if err2 == nil {
+		sub.write("mod/go.mod", "module relmod\n\ngo 1.22\n")
+		sub.write("mod/pkg1/in.go", "package pkg1\n\n// goverter:converter\n// goverter:output:file @cwd/generated/output.go\n// goverter:output:package relmod/generated\ntype C interface {\n\tConvert(source In) Out\n}\ntype In struct{ A int }\ntype Out struct{ A int }\n")
+		code, _, se := sub.run("gen", "-cwd", "./mod", "./...")
+		if code != 0 {
+			bad = append(bad, "relative -cwd run fails: "+firstLine(se))
+		}
+		if _, err := os.Stat(filepath.Join(sub.dir, "mod/generated/output.go")); err != nil {
+			bad = append(bad, "@cwd/ output with a relative -cwd is not written below the working directory")
+		}
+		if _, err := os.Stat(filepath.Join(sub.dir, "mod/pkg1/mod")); err == nil {
+			bad = append(bad, "@cwd/ output with a relative -cwd created a stray directory below the declaring package")
+		}
+		os.Remove(sub.bin)
+	}
 	return bad, nil
 }
 
-var e2eScenarios = map[string]func(repo, dir string) ([]string, error){
+// e2eC09: regenerating over stale / longer / broken previous output gives the bytes of a clean generation,
+// and repeated runs in fresh processes give identical bytes and diagnostics.
+func e2eC09(repo, dir string, vals map[string]string) ([]string, error) {
+	e, err := newE2E(repo, dir)
+	if err != nil {
+		return nil, err
+	}
+	var bad []string
+	big := "package p\n\n// goverter:converter\ntype C interface {\n\tConvert(source In) Out\n\tConvert2(source []In) []Out\n\tConvert3(source map[string]In) map[string]Out\n}\ntype In struct{ A, B, C int }\ntype Out struct{ A, B, C int }\n"
+	small := "package p\n\n// goverter:converter\ntype C interface {\n\tConvert(source In) Out\n}\ntype In struct{ A int }\ntype Out struct{ A int }\n"
+	e.write("p/in.go", big)
+	if code, _, se := e.run("gen", "./p"); code != 0 {
+		return nil, fmt.Errorf("setup failed: %s", se)
+	}
+	e.write("p/in.go", small)
+	e.run("gen", "./p")
+	over, _ := os.ReadFile(filepath.Join(e.dir, "p/generated/generated.go"))
+	os.RemoveAll(filepath.Join(e.dir, "p/generated"))
+	e.run("gen", "./p")
+	clean, _ := os.ReadFile(filepath.Join(e.dir, "p/generated/generated.go"))
+	if string(over) != string(clean) {
+		bad = append(bad, fmt.Sprintf("regenerating over a longer stale output differs from a clean generation (%d vs %d bytes)", len(over), len(clean)))
+	}
+	for i := 0; i < 8; i++ {
+		e.run("gen", "./p")
+		again, _ := os.ReadFile(filepath.Join(e.dir, "p/generated/generated.go"))
+		if string(again) != string(clean) {
+			bad = append(bad, "repeated run changed the output")
+			break
+		}
+	}
+	// several simultaneous faults: the diagnostic is the same in every fresh process
+	e.write("q/in.go", "package q\n\n// goverter:converter\ntype C interface {\n\t// goverter:map A B\n\tA2D(source []A) []D\n\t// goverter:map A B\n\tD2A(source []D) []A\n\t// goverter:map A B\n\tB2C(source []B) []C\n\t// goverter:map A B\n\tC2B(source []C) []B\n}\ntype A struct{ A int }\ntype B struct{ B int }\ntype C struct{ B int }\ntype D struct{ B int }\n")
+	seen := map[string]bool{}
+	for i := 0; i < 24; i++ {
+		_, _, se := e.run("gen", "./q")
+		seen[se] = true
+	}
+	if len(seen) > 1 {
+		bad = append(bad, fmt.Sprintf("%d different diagnostics for the same faulty input in 24 fresh processes", len(seen)))
+	}
+	return bad, nil
+}
+
+var e2eScenarios = map[string]func(repo, dir string, vals map[string]string) ([]string, error){
+	"c09": e2eC09,
 	"c15": e2eC15,
 	"c16": e2eC16,
 	"c17": e2eC17,
